@@ -294,7 +294,8 @@ func (s *Service) issueBuilderBidRequests(ctx context.Context,
 	for _, relay := range proposerConfig.Relays {
 		builderClient, err := util.FetchBuilderClient(ctx, relay.Address, s.monitor, s.releaseVersion)
 		if err != nil {
-			log.Error().Str("address", builderClient.Address()).Err(err).Msg("Failed to obtain builder client for block auction")
+			// There is no client to ask for its address when it could not be obtained.
+			log.Error().Str("address", relay.Address).Err(err).Msg("Failed to obtain builder client for block auction")
 			continue
 		}
 		provider, isProvider := builderClient.(builderclient.BuilderBidProvider)
